@@ -45,7 +45,7 @@ func ExecSched(s *Script) *sim.Outcome {
 				}
 				n++
 				id := fmt.Sprintf("m%c%d", 'a'+ti, n)
-				loggers[l].Info(id)
+				loggers[l].Info(id, zap.String("id", id))
 				written[ti] = append(written[ti], id)
 			}
 			for _, op := range s.Tasks[ti] {
@@ -105,6 +105,9 @@ func ExecSched(s *Script) *sim.Outcome {
 		for _, e := range w.ML.GetLogs() {
 			if e != nil {
 				got = append(got, e.Entry.Message)
+				if !FieldOK(e.Entry.Message, e.Context) {
+					w.Fail("c20.concurrent", "final:entry-carries-foreign-fields", "entry %s is retained with fields that are not the ones it was written with", e.Entry.Message)
+				}
 			}
 		}
 		w.judge("final", got, setup, written, total, true)
